@@ -2,8 +2,10 @@
   Helper lemmas for C11: the label fold `relabel` against the flat-traversal specification.
 -/
 import GEVerif.Model.Labels
+import GEVerif.Model.Tree
 
-namespace GEVerif
+namespace GEVerif.Labels
+open GEVerif
 
 /-! ### `TKey` equality -/
 
@@ -881,9 +883,300 @@ theorem memoList_fixes_labelled (g : Grammar) :
 end
 
 
+/-! ### Well-typed programs satisfy `ArgsMatchTerminality` -/
+
+private theorem sym_beq_iff (a b : Sym) : (a == b) = true ↔ a = b := by
+  cases a <;> cases b <;> simp [BEq.beq, instBEqSym.beq]
+
+/-- every registered class that is not a non-terminal has no fields (a decidable check of one
+grammar; `register_type` files a class under the terminals exactly when it is concrete and
+field-less) -/
+def _root_.GEVerif.Grammar.terminalsFieldless (g : Grammar) : Bool :=
+  g.reg.allNodes.all fun s =>
+    match s with
+    | .cls c => g.reg.nonTerminals.contains (.cls c) || (g.cls c).fields.isEmpty
+    | _ => true
+
+theorem _root_.GEVerif.Grammar.terminalsFieldless_fields {g : Grammar} (hg : g.terminalsFieldless = true) {c : Nat}
+    (hreg : g.reg.allNodes.contains (.cls c) = true) (ht : g.isTerminalCls c = true) :
+    (g.cls c).fields = [] := by
+  obtain ⟨a, ha, hac⟩ := List.contains_iff_exists_mem_beq.1 hreg
+  have : a = .cls c := ((sym_beq_iff _ _).1 hac).symm ▸ rfl
+  subst this
+  have := List.all_eq_true.1 hg _ ha
+  simp only [Grammar.isTerminalCls, Bool.not_eq_true'] at ht
+  simpa [ht] using this
+
+theorem FieldlessTerminals.nil (g : Grammar) : FieldlessTerminals g [] :=
+  fun _ _ _ _ hm _ => by simp at hm
+
+theorem FieldlessTerminals.append {g : Grammar} {a b : List Val}
+    (ha : FieldlessTerminals g a) (hb : FieldlessTerminals g b) : FieldlessTerminals g (a ++ b) :=
+  fun c d e args hm ht => by
+    rcases List.mem_append.1 hm with h | h
+    · exact ha c d e args h ht
+    · exact hb c d e args h ht
+
+theorem FieldlessTerminals.cons_of_not_node {g : Grammar} {x : Val} {l : List Val}
+    (hx : ∀ c d e args, x ≠ .node c d e args) (hl : FieldlessTerminals g l) :
+    FieldlessTerminals g (x :: l) :=
+  fun c d e args hm ht => by
+    rcases List.mem_cons.1 hm with h | h
+    · exact absurd h.symm (hx c d e args)
+    · exact hl c d e args h ht
+
+theorem wtFields_nil_args {g : Grammar} {deps : List (String × Val)} {args : List Val}
+    (h : wtFields g deps [] args = true) : args = [] := by
+  cases args with
+  | nil => rfl
+  | cons a as => simp [wtFields] at h
+
+theorem wt_fieldless_all (g : Grammar) (hg : g.terminalsFieldless = true) :
+    (∀ deps ty v, wt g deps ty v = true → FieldlessTerminals g v.subvalues) ∧
+    (∀ deps ts v, wtUnion g deps ts v = true → FieldlessTerminals g v.subvalues) ∧
+    (∀ ts vs, wtTuple g ts vs = true → FieldlessTerminals g (Val.subvaluesList vs)) ∧
+    (∀ t vs, wtAll g t vs = true → FieldlessTerminals g (Val.subvaluesList vs)) ∧
+    (∀ deps fs vs, wtFields g deps fs vs = true → FieldlessTerminals g (Val.subvaluesList vs)) := by
+  apply wt.mutual_induct g
+    (motive1 := fun deps ty v => wt g deps ty v = true → FieldlessTerminals g v.subvalues)
+    (motive2 := fun deps ts v => wtUnion g deps ts v = true → FieldlessTerminals g v.subvalues)
+    (motive3 := fun ts vs => wtTuple g ts vs = true → FieldlessTerminals g (Val.subvaluesList vs))
+    (motive4 := fun t vs => wtAll g t vs = true → FieldlessTerminals g (Val.subvaluesList vs))
+    (motive5 := fun deps fs vs => wtFields g deps fs vs = true → FieldlessTerminals g (Val.subvaluesList vs))
+  · intro _ i _; exact FieldlessTerminals.cons_of_not_node (by simp) (.nil g)
+  · intro _ _; exact FieldlessTerminals.cons_of_not_node (by simp) (.nil g)
+  · intro _ s _; exact FieldlessTerminals.cons_of_not_node (by simp) (.nil g)
+  · intro _ b _; exact FieldlessTerminals.cons_of_not_node (by simp) (.nil g)
+  · intro deps n c d e args _ ih h
+    rw [wt.eq_5] at h
+    simp only [Bool.and_eq_true] at h
+    obtain ⟨⟨⟨_, hreg⟩, _⟩, hf⟩ := h
+    have ih := ih hf
+    rw [subvalues_node]
+    intro c' d' e' args' hm ht
+    rcases List.mem_cons.1 hm with heq | hm
+    · cases heq
+      have := Grammar.terminalsFieldless_fields hg hreg ht
+      rw [this] at hf
+      exact wtFields_nil_args hf
+    · exact ih c' d' e' args' hm ht
+  · intro deps t d e vs ih h
+    rw [wt.eq_6] at h
+    rw [subvalues_list]
+    exact FieldlessTerminals.cons_of_not_node (by simp) (ih h)
+  · intro deps ts vs ih h
+    rw [wt.eq_7] at h
+    rw [subvalues_tuple]
+    exact FieldlessTerminals.cons_of_not_node (by simp) (ih h)
+  · intro deps ts v ih h
+    rw [wt.eq_8] at h
+    exact ih h
+  · intro deps t mh v ih h
+    rw [wt.eq_9] at h
+    simp only [Bool.and_eq_true] at h
+    exact ih h.1
+  · intro deps x x1 h1 h2 h3 h4 h5 h6 h7 h8 h9 h
+    rw [wt.eq_10 g deps x x1 h8 h9 h1 h2 h3 h4 h5 h6 h7] at h
+    exact absurd h (by simp)
+  · intro deps x h; simp [wtUnion] at h
+  · intro deps t ts v ih1 ih2 h
+    rw [wtUnion.eq_2] at h
+    rcases Bool.or_eq_true _ _ ▸ h with h | h
+    · exact ih1 h
+    · exact ih2 h
+  · intro _; rw [subvaluesList_nil]; exact .nil g
+  · intro t ts v vs ih1 ih2 h
+    rw [wtTuple.eq_2] at h
+    simp only [Bool.and_eq_true] at h
+    rw [subvaluesList_cons]
+    exact (ih1 h.1).append (ih2 h.2)
+  · intro x x1 h1 h2 h
+    rw [wtTuple.eq_3 g x x1 h1 h2] at h
+    exact absurd h (by simp)
+  · intro t _; rw [subvaluesList_nil]; exact .nil g
+  · intro t v vs ih1 ih2 h
+    rw [wtAll.eq_2] at h
+    simp only [Bool.and_eq_true] at h
+    rw [subvaluesList_cons]
+    exact (ih1 h.1).append (ih2 h.2)
+  · intro deps _; rw [subvaluesList_nil]; exact .nil g
+  · intro deps n t fs v vs ih1 ih2 h
+    rw [wtFields.eq_2] at h
+    simp only [Bool.and_eq_true] at h
+    rw [subvaluesList_cons]
+    exact (ih1 h.1).append (ih2 h.2)
+  · intro deps x x1 h1 h2 h
+    rw [wtFields.eq_3 g deps x x1 h1 h2] at h
+    exact absurd h (by simp)
+
+
+/-! ### `register_type` files every field-carrying class under the non-terminals -/
+
+/-- a registered symbol is fine: a class is filed under the non-terminals or has no fields -/
+def GoodSym (classes : List ClassDecl) (r : Reg) : Sym → Prop
+  | .cls c => Sym.cls c ∈ r.nonTerminals ∨ (classes.getD c default).fields = []
+  | _ => True
+
+/-- `r'` extends `r`: non-terminals only grow and every newly registered symbol is fine -/
+def RegExt (classes : List ClassDecl) (r r' : Reg) : Prop :=
+  (∀ s, s ∈ r.nonTerminals → s ∈ r'.nonTerminals) ∧
+  (∀ s, s ∈ r'.allNodes → s ∈ r.allNodes ∨ GoodSym classes r' s)
+
+theorem GoodSym.mono {classes : List ClassDecl} {r r' : Reg}
+    (h : ∀ s, s ∈ r.nonTerminals → s ∈ r'.nonTerminals) {s : Sym} (hs : GoodSym classes r s) :
+    GoodSym classes r' s := by
+  cases s <;> simp only [GoodSym] at hs ⊢
+  rcases hs with hs | hs
+  · exact .inl (h _ hs)
+  · exact .inr hs
+
+theorem RegExt.refl (classes : List ClassDecl) (r : Reg) : RegExt classes r r :=
+  ⟨fun _ h => h, fun _ h => .inl h⟩
+
+theorem RegExt.trans {classes : List ClassDecl} {a b c : Reg}
+    (h1 : RegExt classes a b) (h2 : RegExt classes b c) : RegExt classes a c :=
+  ⟨fun s h => h2.1 s (h1.1 s h), fun s h => by
+    rcases h2.2 s h with h | h
+    · rcases h1.2 s h with h | h
+      · exact .inl h
+      · exact .inr (h.mono h2.1)
+    · exact .inr h⟩
+
+/-- changing fields other than `allNodes` / `nonTerminals` is invisible -/
+theorem RegExt.congr_right {classes : List ClassDecl} {a b c : Reg} (h : RegExt classes a b)
+    (h1 : c.allNodes = b.allNodes) (h2 : c.nonTerminals = b.nonTerminals) : RegExt classes a c := by
+  refine ⟨fun s hs => h2 ▸ h.1 s hs, fun s hs => ?_⟩
+  rcases h.2 s (h1 ▸ hs) with h' | h'
+  · exact .inl h'
+  · exact .inr (h'.mono (fun s hs => h2 ▸ hs))
+
+theorem RegExt.congr_left {classes : List ClassDecl} {a b c : Reg} (h : RegExt classes a b)
+    (h1 : c.allNodes = a.allNodes) (h2 : c.nonTerminals = a.nonTerminals) : RegExt classes c b :=
+  ⟨fun s hs => h.1 s (h2 ▸ hs), fun s hs => by
+    rcases h.2 s hs with h' | h'
+    · exact .inl (h1 ▸ h')
+    · exact .inr h'⟩
+
+theorem regBase_ext (classes : List ClassDecl) (s : Sym) (hs : ∀ c, s ≠ .cls c) (r : Reg) :
+    RegExt classes r (regTy.regBase s r) := by
+  unfold regTy.regBase
+  split
+  · exact .refl _ _
+  · refine ⟨fun _ h => h, fun x hx => ?_⟩
+    simp only [List.mem_append, List.mem_singleton] at hx
+    rcases hx with hx | rfl
+    · exact .inl hx
+    · right; cases x <;> simp [GoodSym] 
+      exact absurd rfl (hs _)
+
+theorem reg_cls_step (classes : List ClassDecl) (n : Nat) (r r0 r3 : Reg)
+    (h0a : r0.allNodes = r.allNodes ++ [Sym.cls n]) (h0n : r0.nonTerminals = r.nonTerminals)
+    (hExt : RegExt classes r0 r3) :
+    RegExt classes r
+      (if (!(classes.getD n default).abstract && (classes.getD n default).fields.isEmpty) = true then
+        { r3 with terminals := r3.terminals ++ [Sym.cls n] }
+      else { r3 with nonTerminals := r3.nonTerminals ++ [Sym.cls n] }) := by
+  have hgood : ∀ (r4 : Reg), r4.allNodes = r3.allNodes →
+      (∀ s, s ∈ r3.nonTerminals → s ∈ r4.nonTerminals) → GoodSym classes r4 (.cls n) →
+      RegExt classes r r4 := by
+    intro r4 ha hn hg
+    refine ⟨fun s hs => hn s (hExt.1 s (h0n ▸ hs)), fun s hs => ?_⟩
+    rcases hExt.2 s (ha ▸ hs) with h | h
+    · rw [h0a] at h
+      simp only [List.mem_append, List.mem_singleton] at h
+      rcases h with h | rfl
+      · exact .inl h
+      · exact .inr hg
+    · exact .inr (h.mono hn)
+  split
+  · rename_i ht
+    simp only [Bool.and_eq_true, List.isEmpty_iff] at ht
+    exact hgood _ rfl (fun s hs => hs) (.inr ht.2)
+  · exact hgood _ rfl (fun s hs => List.mem_append_left _ hs)
+      (.inl (List.mem_append_right _ (List.mem_singleton.2 rfl)))
+
+theorem reg_ext (classes : List ClassDecl) (considered : List Nat) :
+    ∀ fuel,
+      (∀ ty r, RegExt classes r (regTy classes considered fuel ty r)) ∧
+      (∀ ts r, RegExt classes r (regTys classes considered fuel ts r)) ∧
+      (∀ fs r, RegExt classes r (regFields classes considered fuel fs r)) ∧
+      (∀ n sts r, RegExt classes r (regSubs classes considered fuel n sts r)) := by
+  intro fuel
+  induction fuel with
+  | zero =>
+    refine ⟨fun _ r => ?_, fun _ r => ?_, fun _ r => ?_, fun _ _ r => ?_⟩
+    · rw [regTy]; exact .refl _ _
+    · rw [regTys]; exact .refl _ _
+    · rw [regFields]; exact .refl _ _
+    · rw [regSubs]; exact .refl _ _
+  | succ fuel ih =>
+    obtain ⟨ihTy, ihTys, ihFields, ihSubs⟩ := ih
+    refine ⟨fun ty r => ?_, fun ts r => ?_, fun fs r => ?_, fun n sts r => ?_⟩
+    · cases ty with
+      | list t => rw [regTy]; exact ihTy t r
+      | ann t mh => rw [regTy]; exact ihTy t r
+      | tuple ts => rw [regTy]; exact ihTys ts r
+      | union ts => rw [regTy]; exact ihTys ts r
+      | int => rw [regTy]; exact regBase_ext classes _ (by simp) r
+      | float => rw [regTy]; exact regBase_ext classes _ (by simp) r
+      | str => rw [regTy]; exact regBase_ext classes _ (by simp) r
+      | bool => rw [regTy]; exact regBase_ext classes _ (by simp) r
+      | cls n =>
+        rw [regTy]
+        split
+        · exact .refl _ _
+        · refine reg_cls_step classes n r
+            { r with allNodes := r.allNodes ++ [Sym.cls n] } _ rfl rfl ?_
+          refine RegExt.trans (RegExt.trans (b := ?r1) ?h1 ?h2) (ihSubs n considered _)
+          case h2 =>
+            split
+            · exact .refl _ _
+            · exact ihFields _ _
+          case h1 =>
+            split
+            · dsimp only
+              split
+              · exact (ihTy _ _).congr_right rfl rfl
+              · exact (ihTy _ _).congr_right rfl rfl
+            · exact .refl _ _
+    · cases ts with
+      | nil => rw [regTys]; exact .refl _ _
+      | cons t ts => rw [regTys]; exact (ihTy t r).trans (ihTys ts _)
+    · cases fs with
+      | nil => rw [regFields]; exact .refl _ _
+      | cons f fs => obtain ⟨nm, t⟩ := f; rw [regFields]; exact (ihTy t r).trans (ihFields fs _)
+    · cases sts with
+      | nil => rw [regSubs]; exact .refl _ _
+      | cons st rest =>
+        rw [regSubs]
+        refine RegExt.trans ?_ (ihSubs n rest _)
+        split
+        · exact ihTy _ r
+        · exact .refl _ _
+
+
+theorem analyse_terminalsFieldless (spec : GrammarSpec) : (analyse spec).terminalsFieldless = true := by
+  have h := ((reg_ext spec.classes spec.considered (regFuel spec)).1 (.cls spec.start) {}).2
+  unfold Grammar.terminalsFieldless
+  rw [List.all_eq_true]
+  intro s hs
+  have hs' : s ∈ (regTy spec.classes spec.considered (regFuel spec) (.cls spec.start) {}).allNodes := hs
+  rcases h s hs' with h0 | hg
+  · simp at h0
+  · cases s with
+    | cls c =>
+      simp only [GoodSym] at hg
+      simp only [Bool.or_eq_true, List.isEmpty_iff]
+      rcases hg with hg | hg
+      · left
+        exact List.contains_iff_exists_mem_beq.2 ⟨_, hg, (sym_beq_iff _ _).2 rfl⟩
+      · right; exact hg
+    | _ => rfl
+
+
 /-! ### Concrete data for the non-vacuity examples of Props/C11.lean -/
 
-namespace LabelsEx
+namespace Ex
 /-- `Expr ::= Lit | Add(l: Expr, r: Expr) | Block(body: list[Expr]) | Pair(p: tuple[Expr, int])` -/
 def spec : GrammarSpec :=
   { classes := [⟨"Expr", true, none, []⟩,
@@ -914,6 +1207,6 @@ def reusedProg : LVal :=
       [.node none 4 2 0
         [.tuple [(relabelMemo g (LVal.fresh (.node 2 2 0 [.node 1 3 0 [], .node 1 3 0 []]))).2,
                  .int 3]]]]
-end LabelsEx
+end Ex
 
-end GEVerif
+end GEVerif.Labels
